@@ -1,6 +1,7 @@
 import Rivaas.Proto
 import Rivaas.Model.Bind
 import Rivaas.Spec.Bind
+import Rivaas.Model.BindObs
 /-
 Driver for C04. Case line:
   <id> <G|T> <tag 0..4> <maxDepth> <maxSlice> <maxMap> <csv> <baseAuto> <Ty> <init Val>
@@ -130,11 +131,6 @@ def encObs : Spec.Obs → String
   | .ok v => "O " ++ encVal v
   | .err e => encErr e
   | .panic => "X"
-
-def toObs : Outcome → Spec.Obs
-  | .ok v => .ok v
-  | .err e => .err e
-  | .panic => .panic
 
 def lookupP (tbl : List (Bytes × PEntry)) : Params := fun s => (assoc s tbl).getD {}
 
